@@ -1,7 +1,7 @@
 //! Shared pieces of the dasp explorers that depend on the dasp crates.
 
-pub mod domain;
-pub mod fmts;
+pub use scalar::{domain, fmts};
+pub use scalar::{for_int_fmts, for_int_pairs};
 pub mod probe;
 pub mod progs;
 pub mod progs_main;
